@@ -42,3 +42,38 @@ PROPS = {
     "C14": {"jobs": [J("lr.freeze", "wl_lr", 60000, 1500000, mode="freeze"),
                      J("lr.overlap", "wl_lr", 20000, 500000, mode="overlap")]},
 }
+
+
+def _t(level, note, technique):
+    return {"level": level, "note": note, "technique": technique}
+
+
+_NOTE = ("trusted base: the gsim runtime (scheduler, simulated pthread objects, memory-model executor) and the "
+         "workload oracles; clang 14 -O1 x86-64 code generation; programs are small (<= 7 threads, <= 12 ops per "
+         "thread); a clean batch is evidence, not proof")
+
+TEXT = {
+    "C01": _t("seeded search over schedules x programs x faults (time jumps, spurious try-lock failures) for all 5 wrappers x 4 mutex types; "
+              "online oracles: access-window monitor on the wrapped object (any overlap with a write window), every granted access must "
+              "observe the last completed write (no lost update), deadlock / no-progress detector, leaked-lock check after join",
+              _NOTE, "seeded schedule search with access-window overlap and lost-update oracles"),
+    "C02": _t("seeded search over reader/writer programs on shared_guarded, shared_guarded_opt, ordered_guarded, deferred_guarded x 4 mutex "
+              "types under both rwlock preference policies; window monitor (W overlapping R or W), stable re-read under one shared access, "
+              "and reader-sharing rendezvous programs in which no shared acquisition may wait or fail when only readers exist",
+              _NOTE, "seeded schedule search with reader/writer window monitor and reader rendezvous"),
+    "C03": _t("seeded search (random walk, PCT depth<=5, few-preemptions, stall) over writers and readers of lr_guarded<Cell>; oracles: window "
+              "monitor per copy, torn/unstable reads, recency bounds lo<=v<=hi from invocation/response stamps, per-reader monotonicity, final "
+              "value after two further modifies (both copies), termination; atomics executed under the memory-model executor with stale reads enabled",
+              _NOTE, "seeded schedule search with per-copy window monitor and recency/monotonicity history oracle"),
+    "C08": _t("seeded search over every try/timed acquisition form x handle life cycle (destroy, unlock, move-construct, move-assign) x mutex type x "
+              "enable flag; oracle compares handle nullness with the calling thread's held-lock set as seen at the simulated pthread layer, forbids "
+              "untimed waits inside try/timed forms, bounds every timed wait by the requested duration/time point, detects double release",
+              _NOTE, "seeded schedule search with held-lock-set oracle at the pthread layer"),
+    "C14": _t("fault = writer suspended at its k-th visible step (freeze) while readers must complete full read acquisitions; plus overlapping "
+              "hand-over-hand readers that never leave the object unread until the writer has finished (bounded-step liveness under fair scheduling)",
+              _NOTE, "writer-freeze fault injection at every visible step plus bounded-liveness search"),
+    "C15": _t("seeded search over 1..3 threads issuing load/store/assign/convert/exchange/compare_exchange (unique values) on atomic_guarded, guarded, "
+              "guarded_opt, ordered_guarded and load/modify_detach on deferred_guarded; recorded histories (simulator sequence stamps) are checked with a "
+              "Wing-Gong linearizability search against a sequential register; torn loads reported online",
+              _NOTE, "seeded schedule search with Wing-Gong linearizability check against a register model"),
+}
